@@ -118,3 +118,10 @@ Definition unsafe_reader_witness : gstate :=
   run [1; 1; 1; 0; 0; 0; 0; 0; 0; 1; 1]%nat (init [writer_prog; unsafe_reader_prog] 0).
 Definition unsafe_writer_witness : gstate :=
   run [0; 0; 0; 0; 0; 1; 1; 1; 1; 1; 1; 0]%nat (init [unsafe_writer_prog; unsafe_writer_prog] 0).
+
+(* the periodic collector (PeriodicReportsHandler._periodic_reports_send_loop) is a reader: ReadVersion = the read of
+   mdib_version that labels the PeriodicStates, ReadContent = the state copies, the completed "response" is the pair
+   handed to the services.  A collector that reads the label before it takes the MDIB lock: *)
+Definition early_label_prog : list act := [ReadVersion; AcqMdib; ReadContent; RelMdib].
+Definition early_label_witness : gstate :=
+  run [1; 0; 0; 0; 0; 0; 0; 1; 1; 1; 1]%nat (init [writer_prog; early_label_prog] 0).
